@@ -11,6 +11,7 @@ import (
 	"bytes"
 	"encoding/binary"
 	"fmt"
+	"golang.org/x/text/unicode/norm"
 	"os"
 	"runtime"
 	"runtime/debug"
@@ -325,6 +326,24 @@ func mpHeader(kind string, n int, wide int) []byte {
 	return nil
 }
 
+// otherSpelling returns the canonically equivalent string in the other normalization form.
+func otherSpelling(x string) string {
+	if d := norm.NFD.String(x); d != x {
+		return d
+	}
+	return norm.NFC.String(x)
+}
+
+func mpStrHeader(n int) []byte {
+	switch {
+	case n < 32:
+		return []byte{0xa0 | byte(n)}
+	case n < 256:
+		return []byte{0xd9, byte(n)}
+	}
+	return []byte{0xda, byte(n >> 8), byte(n)}
+}
+
 func mpExt(typ byte, body []byte) []byte {
 	n := len(body)
 	switch {
@@ -584,8 +603,17 @@ func c17ApplyFault(c *Ctx, kind int, data []byte, others [][]byte) []byte {
 			if c.F(2) == 0 {
 				dst, src = src, dst
 			}
+			item := data[src.off:src.end]
+			if c.F(2) == 0 && src.off+src.hdr <= src.end {
+				// ... in another spelling of the same string (decomposed instead of composed, or the reverse)
+				body := string(data[src.off+src.hdr : src.end])
+				if alt := otherSpelling(body); alt != body && len(alt) < 1<<16 {
+					item = append(mpStrHeader(len(alt)), alt...)
+					c.Probe("c17.keycopy-respelled")
+				}
+			}
 			out := append([]byte(nil), data[:dst.off]...)
-			out = append(out, data[src.off:src.end]...)
+			out = append(out, item...)
 			return append(out, data[dst.end:]...)
 		}
 	case 11: // some item becomes a dynamic-value wrapper whose type carries optional attributes
@@ -701,7 +729,15 @@ func c17TokenDamage(c *Ctx, data []byte) []byte {
 				dst, src = src, dst
 			}
 			c.Probe("c17.token.key-overwritten")
-			return splice(dst.a, dst.b, string(data[src.a:src.b]))
+			repl := string(data[src.a:src.b])
+			if c.F(2) == 0 {
+				// ... in another spelling of the same name (decomposed instead of composed, or the reverse)
+				if alt := otherSpelling(repl); alt != repl {
+					repl = alt
+					c.Probe("c17.token.key-respelled")
+				}
+			}
+			return splice(dst.a, dst.b, repl)
 		}
 		return splice(t.a, t.b, c17Replacements[c.F(len(c17Replacements))])
 	case 0: // swap the token for one of another kind
@@ -802,20 +838,26 @@ func c17MaxLen(c *Ctx) int {
 	return 3
 }
 
+// c17SameTypedObject: objects whose attributes share one type, alone or as members of a structure - a key damaged
+// into a sibling's (or into another spelling of a sibling's: some names are not ASCII) still decodes.
+func c17SameTypedObject(c *Ctx) *TDesc {
+	et := genType(c, 1, GenOpts{})
+	obj := &TDesc{K: KObject}
+	names := [][]string{{"a", "b", "k", "zz"}, {"\u00e9", "a", "\u00c5", "k"}, {"k", "\uac00", "\u00e9x", "b"}}[c.G(3)]
+	for _, n := range names[:2+c.G(3)] {
+		obj.Names = append(obj.Names, n)
+		obj.Elems = append(obj.Elems, et)
+	}
+	return []*TDesc{obj, {K: KList, Elem: obj}, {K: KMap, Elem: obj}, {K: KTuple, Elems: []*TDesc{obj, tString}}}[c.G(4)]
+}
+
 func c17GenRecord(c *Ctx) c17Record {
 	kind := c.G(10)
 	switch {
 	case kind <= 2: // JSON value (capsule payloads are encoded by encoding/json)
 		t := genType(c, 3, GenOpts{Capsule: c.G(4) == 0})
 		if c.G(4) == 0 {
-			// objects whose attributes share one type, alone or as members: a key damaged into a sibling's still decodes
-			et := genType(c, 1, GenOpts{})
-			obj := &TDesc{K: KObject}
-			for _, n := range []string{"a", "b", "k", "zz"}[:2+c.G(3)] {
-				obj.Names = append(obj.Names, n)
-				obj.Elems = append(obj.Elems, et)
-			}
-			t = []*TDesc{obj, {K: KList, Elem: obj}, {K: KMap, Elem: obj}, {K: KTuple, Elems: []*TDesc{obj, tString}}}[c.G(4)]
+			t = c17SameTypedObject(c)
 		}
 		d := genValue(c, t, 3, GenOpts{Null: true, MaxLen: c17MaxLen(c), Collide: c.G(3) == 0})
 		d.stripMarksDeep()
@@ -827,6 +869,9 @@ func c17GenRecord(c *Ctx) c17Record {
 		return c17Record{codec: "json", data: b, t: t, enc: enc, desc: d.String()}
 	case kind <= 5: // msgpack value, unknowns refined in every way
 		t := genType(c, 3, GenOpts{})
+		if c.G(4) == 0 {
+			t = c17SameTypedObject(c)
+		}
 		d := genValue(c, t, 3, GenOpts{Null: true, Unknown: true, Refine: true, MaxLen: c17MaxLen(c), Collide: c.G(3) == 0})
 		d.stripMarksDeep()
 		v := d.Build()
